@@ -43,7 +43,8 @@ OrderFreeAll == \A i \in Inputs : (Len(i.misc) <= 3 /\ Len(i.sh.ts) <= 3) => Ord
 
 ASSUME PrintT(<<"CASES", Cardinality(Inputs)>>)
 ASSUME OrderFreeAll
-ASSUME EvalRefines
+Witness == CHOOSE i \in Inputs : i.fam \in AlgFams /\ ~Refines(EvalAlg, i.fam, i.misc, i.none, i.sh.ts, i.c)
+ASSUME EvalRefines \/ (PrintT(<<"WITNESS", Witness>>) /\ FALSE)      \* name a counterexample when rejected
 ASSUME "OUT_FILE" \in DOMAIN IOEnv => JsonSerialize(IOEnv.OUT_FILE, SetToSeq(Cases))
 
 DInit == dummy = 0
